@@ -217,6 +217,8 @@ def r1_r4_expansion(prog, rep: Report, f: Func):
     for n in walk_own(f.node):
         if isinstance(n, ast.Call) and any(isinstance(a, ast.Name) and a.id == q for a in n.args) and \
                 not (_heap_fn(prog, f, n) or "").startswith("heapq."):
+            if src(n.func) in ("len", "bool") and len(n.args) == 1:
+                continue                             # asking whether the queue is empty does not touch it
             other.append(src(n))
         if isinstance(n, ast.Call) and isinstance(n.func, ast.Attribute) and isinstance(n.func.value, ast.Name) and n.func.value.id == q:
             other.append(src(n))
@@ -297,7 +299,7 @@ def r5_scan(prog, rep: Report, g: Func, f: Func):
         return
     lp = loops[0]
     comb_v, s_v = (src(x) for x in lp.target.elts)
-    call = lp.iter
+    call = flow.expand(lp.iter) if isinstance(lp.iter, ast.Name) else lp.iter        # a named stream
     ok_call = False
     if isinstance(call, ast.Call) and src(call.func) == f.name and len(call.args) >= 2:
         a0 = flow.expand(call.args[0]) if isinstance(call.args[0], ast.Name) else call.args[0]
@@ -319,14 +321,20 @@ def r5_scan(prog, rep: Report, g: Func, f: Func):
         while p_ is not None and not isinstance(p_, (ast.FunctionDef, ast.AsyncFunctionDef, ast.Lambda)):
             p_ = getattr(p_, "_parent", None)
         return p_ is g.node
+    def _is_res(v) -> bool:
+        """the accumulator, or a plain copy of it"""
+        return v is not None and src(v) in (res, f"list({res})", f"{res}[:]", f"{res}.copy()")
+
+    def _in_loop(r) -> bool:
+        return any(x is r for x in ast.walk(lp))
     others = [r for r in ast.walk(g.node) if isinstance(r, ast.Return) and _own(r)
-              and not (r.value is not None and src(r.value) == res and r in g.node.body and g.node.body.index(r) > g.node.body.index(lp))]
+              and not (_is_res(r.value) and ((r in g.node.body and g.node.body.index(r) > g.node.body.index(lp)) or _in_loop(r)))]
     if others:
         rep.unrec("C17.R5", g, "single-producer", f"`{src(others[0])}` produces a result without the scan of the sorted stream: "
                   "whether it equals what the scan would return is a value-level question this check cannot decide",
                   line=others[0].lineno)
     else:
-        rep.ok("C17.R5", g, "single-producer", f"the only return is `return {res}` after the scan")
+        rep.ok("C17.R5", g, "single-producer", f"every return hands back `{res}` (or a plain copy), after the scan or as the scan's stop")
 
     def mk_term(found: bool, env):
         def term(x):
